@@ -133,6 +133,17 @@ CLAIMED = {
         "Trusted: Lean kernel + standard axioms; the shape table is read off the code by hand (the fault enumeration ties it to the running code); C07 for the harmlessness of left-over tables.",
         "DESIGN.md §6 C08",
     ),
+    "C06": (
+        "A translator (T-dialect: imports the five dialect classes, reads every similarity/distance function name, the infinity expression, array indexing and the comparator each level creator emits, and "
+        "classifies each emitted function by executing it through Splink's own execution path on every backend that runs here) regenerates Generated/Dialects.lean on every run; Lean 4 proves by `decide` over "
+        "the whole regenerated table that every dialect gives every function kind the same orientation (similarity vs distance) and NULL behaviour as the dialect-free model expects, that every emitted name "
+        "evaluates, that level creators only write >= for similarities and <= for distances, that the infinity literal is +inf wherever it is used (and the negation for SQLite = known finding K6), that "
+        "first-element array access is consistent; an elaboration-time walk shows no model or driver constant mentions a dialect type (the models are dialect-independent by construction). Tie: the underlying "
+        "checks' scenarios (blocking, scoring, EM, estimators, clustering, multi-threshold, blocking analysis, full pipelines, every comparison-library creator) are run on DuckDB and SQLite (Spark thorough) and "
+        "all outputs compared; attribution of a disagreement by the underlying check's oracle.",
+        "Trusted: Lean kernel + standard axioms; T-dialect's probes; engines' arithmetic within tolerance; Postgres/Athena static only; Spark's jar UDFs not loadable here; `model_is_dialect_free` is an elaboration-time check, not a kernel theorem.",
+        "DESIGN.md §6 C06",
+    ),
     "C10": (
         "Lean 4 theorems about a model of the five inference entry points (predict, compare_two_records, realtime compare_records, find_matches_to_new_records, missing within-cluster edge scoring) over one "
         "shared scoring function: all five report the same levels and weight for the same pair and TF values, find_matches returns exactly the existing records admitted by the first TRUE blocking rule whose "
